@@ -217,7 +217,13 @@ fn change_between(a: &ModelWs, b: &ModelWs) -> (Change, bool) {
 fn run_scenario(rep: &mut Report, case_seed: u64) {
     CURRENT_CASE.store(case_seed, Ordering::SeqCst);
     let mut r = Rng::new(case_seed);
-    let k = r.range(1, 6);
+    // one scenario in ten is a long session: 30-60 changes served by the same reader threads (a server's worker
+    // threads live as long as the server: whatever a cancelled query leaves behind on its thread adds up there)
+    let long_session = r.chance(1, 10);
+    let k = if long_session { r.range(30, 60) } else { r.range(1, 6) };
+    if long_session {
+        rep.count("long_sessions", 1);
+    }
     let n_readers = r.range(1, 4);
     let (versions, kinds) = version_workspaces(&mut r, k);
     // probes are fixed per scenario and valid for every version (offsets may exceed a
